@@ -240,9 +240,10 @@ structure Holds (g : Graph) (p : Item) (R : List Nat) : Prop where
   /-- no cycle: every unit after all units that feed it, no recycle reported -/
   acyclic : ¬ Cyclic g → (∀ a b, FlowEdge g a b → pos p a < pos p b) ∧ R = []
   /-- cycles: a recycle is reported, the reported recycles cut every cycle (no unit reaches itself once
-  they are removed), and every stream against the path order lies on a cycle (its sink reaches its
+  they are removed), every reported recycle is a recycle stream (it lies on a cycle), and every stream
+  against the path order lies on a cycle (its sink reaches its
   source) whose two units are inside a common recycle loop -/
-  cyclic : Cyclic g → R ≠ [] ∧ (∀ u, ¬ Reach g R u u) ∧
+  cyclic : Cyclic g → R ≠ [] ∧ (∀ u, ¬ Reach g R u u) ∧ (∀ s, s ∈ R → OnCycle g s) ∧
     ∀ a b, FlowEdge g a b → ¬ pos p a < pos p b → Reach g [] b a ∧ InCommonLoop p a b
 
 /-- **validNetwork_sound**.  Whenever the executable checker accepts `(g, p, R)`, the property's
@@ -285,8 +286,15 @@ theorem validNetwork_sound {p : Item} {R : List Nat} (hlen : g.outs.length ≤ g
     rename_i hcut
     have hcut' : acyclicB g R = true := by simpa using hcut
     split at hv
+    · exact absurd hv (by simp)
+    rename_i hon
+    have hon' : ∀ s, s ∈ R → OnCycle g s := by
+      intro s hs
+      have : R.all (onCycleB g) = true := by simpa using hon
+      exact onCycleB_sound (List.all_eq_true.mp this s hs)
+    split at hv
     · rename_i hall
-      refine ⟨hexact, honce, hrep, fun hn => absurd hcyc hn, fun _ => ⟨?_, acyclic_of_acyclicB hcut', ?_⟩⟩
+      refine ⟨hexact, honce, hrep, fun hn => absurd hcyc hn, fun _ => ⟨?_, acyclic_of_acyclicB hcut', hon', ?_⟩⟩
       · intro e; exact hR (by simp [e])
       · intro a b e hnlt
         have := List.all_eq_true.mp hall (a, b) (hedge a b e)
